@@ -20,6 +20,15 @@ those runs the first file starts with more than one 8 kB read buffer of lines,
 so that a reader that looked at a few lines is in mid-file at the next write.
 No verdict on the readers themselves; the oracle on the written data is
 unchanged (a reader must not move, lose or duplicate what was written).
+
+Reconfiguration family: the history may close the LogFile and construct a new one
+on the same path with ANOTHER retention count and/or rotation length (op
+"reconfig": a restart with changed settings), and the process restarted after a
+crash reconstructs the log with the retention count it died with or with another
+one.  The new object starts from what the earlier configuration left: more rotated
+files than its retention count allows, a current file already longer than its
+rotation length.  The retention model follows the configuration in force: a
+rotation completed under retention count N leaves min(N, before + 1) rotated files.
 """
 import errno
 import os
@@ -38,8 +47,10 @@ BATCH = 10
 COMPONENTS = {"real": ["twisted.python.logfile.LogFile/BaseLogFile (write, rotate, reopen, close, listLogs, _openFile, getCurrentLog, getLog)", "twisted.python.logfile.LogReader (readLines, close)",
                        "the real filesystem under a scratch directory (reads; real descriptors, so dup()ed descriptors share offset and flags as in POSIX)"],
               "stub": ["process/kernel boundary for mutating calls (detsim.fs interposer: crash points, torn writes, errno faults)"]}
-RULE = ("run = one tape-drawn history of 2..14 operations (write bytes / write multi-byte text / rotate / reopen / close+reconstruct) with rotateLength 4..80 and "
-        "maxRotatedFiles in {None,1,2,3}; in half of the runs (browse) the history also opens readers (getCurrentLog() / getLog(k) of a rotated file that exists, up to 3 alive), "
+RULE = ("run = one tape-drawn history of 2..14 operations (write bytes / write multi-byte text / rotate / reopen / close+reconstruct / reconfig = close + a new LogFile on the "
+        "same path with a newly drawn maxRotatedFiles in {1,2,3,None} and rotateLength in {unchanged,10,4,25,80}) with rotateLength 4..80 and "
+        "maxRotatedFiles in {None,1,2,3}; so a retention count may start over a directory holding more rotated files than it allows and a rotation length over a current file "
+        "already beyond it; the process restarted after each crash point reconstructs with the retention count it died with (3 in 7 runs) or a drawn other one; in half of the runs (browse) the history also opens readers (getCurrentLog() / getLog(k) of a rotated file that exists, up to 3 alive), "
         "reads 0/1/2/10 lines from one of them and closes one of them, in between the other operations, and in 30% of those (bulk) the history starts with one write of "
         "8193..8900 bytes of numbered lines with rotateLength raised by as much, so that the first file exceeds one read buffer; checked crash-free after every op, then every crash point and torn-write length is enumerated, each followed by reconstruction "
         "and 2 more writes; then every interposed call (open/write/rename/remove/chmod) fails once with a tape-chosen errno (EIO/EACCES/ENOSPC/EBUSY/EPERM/EROFS/EMFILE/"
@@ -47,7 +58,14 @@ RULE = ("run = one tape-drawn history of 2..14 operations (write bytes / write m
         "closes and reconstructs it, and/or retries the write, finishes the history and 2 more writes; the files are checked from the fault on after every operation that "
         "entered a rotation or raised, and after the final close; non-trivial = at least one automatic rotation happened, a crash landed inside rotate() and an errno fault "
         "landed on a rename/remove inside rotate()")
-ASSUMPTIONS = ["process crash (not power loss); rename() atomic; log file opened unbuffered as LogFile does, so each write() is one kernel write",
+ASSUMPTIONS = ["retention model (from the statement and the constructor's documentation 'max number of log files the class creates ... removes all log files above this number'): a "
+               "rotation completed under retention count N leaves min(N, before+1) rotated files numbered 1..; the statement does not say WHEN files beyond a newly configured smaller "
+               "count go, so between such a reconfiguration and the first rotation after it any count from N up to what was there is accepted (numbering still 1..k, content still a "
+               "contiguous suffix); 'without a retention count loses none' is demanded as long as no configuration of the history had a retention count; while a rotation is cut short "
+               "(crash, errno) the count is only bounded by max(before, min(N, before+1)); after the restarted process completed a rotation under count N at most N files remain "
+               "whatever the dead process left (gaps included)",
+               "the 'at least the rotation length' clause is evaluated against the rotation length of the LogFile object that rotates",
+               "process crash (not power loss); rename() atomic; log file opened unbuffered as LogFile does, so each write() is one kernel write",
                "the 'at least the rotation length when rotated' clause is evaluated for automatic (size-triggered) rotations only; an explicit rotate() may rotate a shorter file by design",
                "errno family: one fault per execution; the failing call has no effect on the directory (a failed write wrote nothing); ENOENT is not injected for files that exist",
                "errno family, narrow relaxations: a write() that RAISED may be absent from the files, present, or present as a prefix (the statement does not say whether it was 'written'); "
@@ -629,6 +647,11 @@ def _enumerate(sim, F, rot, keep, ops, extra, opened, restart="same"):
 
 
 MUTANTS = [
+    "seeded C53-r5b-retention-prunes-one-per-rotation (rotate() removes only the single oldest file when the count has reached the limit) -> first MISSED (every history kept one "
+    "configuration, so the directory never held more rotated files than the retention count); caught after the reconfiguration family: at-most-N-rotated:crash-free, "
+    "at-most-N-rotated:w*@open(w+)+restart (quick, run ~40)",
+    "rotate(): 'i >= self.maxRotatedFiles' -> 'i == self.maxRotatedFiles' (files beyond the limit are shifted up instead of removed; same as the original from an empty directory) -> "
+    "caught through the reconfiguration family: contiguous-suffix:crash-free, post-crash-contiguous:w*@rename",
     "seeded C53-r3-rotate-swallows-oserror (shift loop body in try/except OSError: continue) -> caught: contiguous-suffix:errno:wbytes@rename, nothing-lost-without-retention:errno:w*@rename (quick, run 0)",
     "rotate(): shift loop body in try/except PermissionError: break (only EACCES/EPERM swallowed, current file then renamed over log.1) -> caught: contiguous-suffix:errno:wbytes@rename / @remove",
     "BaseLogFile.write: self._file.write(data) in try/except OSError: pass (write error swallowed) -> caught: contiguous-suffix:errno:w*@write, nothing-lost-without-retention:errno:wtext@write",
